@@ -188,9 +188,14 @@ pub fn check(t: &mut Tape, n_texts: usize) -> Out2 {
     thread_local! {
         static ES: Vec<Entry2> = entries2();
         static COLL: cucumber::step::Collection<ZW2> = ZW2::collection();
+        static COLL_CLONE: cucumber::step::Collection<ZW2> = ZW2::collection().clone();
         static RES: Vec<regex::Regex> = entries2().iter().map(|e| regex::Regex::new(e.re).unwrap()).collect();
     }
-    ES.with(|es| COLL.with(|coll| RES.with(|res| check_with(t, n_texts, es, coll, res))))
+    if t.chance(1, 3) {
+        ES.with(|es| COLL_CLONE.with(|coll| RES.with(|res| check_with(t, n_texts, es, coll, res))))
+    } else {
+        ES.with(|es| COLL.with(|coll| RES.with(|res| check_with(t, n_texts, es, coll, res))))
+    }
 }
 
 fn check_with(t: &mut Tape, n_texts: usize, es: &[Entry2], coll: &cucumber::step::Collection<ZW2>, res: &[regex::Regex]) -> Out2 {
